@@ -117,8 +117,8 @@ def funnel(repo, rep):
             if v is None:
                 rep.violation("R-FUNNEL", site, "no-store", "the stored JDE is not assigned on this path")
                 continue
+            n += len(list(phi_leaves(v)))
             for conds, leaf in phi_leaves(v):
-                n += 1
                 msg = check_leaf(leaf)
                 if msg is None:
                     continue
